@@ -114,10 +114,12 @@ def kholawChildKey (nd : Node) (idx : Nat) : R Node := do
   match nd.priv with
   | some priv =>
     let (k, cc) ← kholawCkdPriv nd priv idx
+    if nd.depth ≥ 255 then throw .value
     nodeOfPriv nd.curve nd.scheme k (nd.depth + 1) idx cc nd.fingerprint
   | none =>
     if isHardened idx then throw .key
     let (p, cc) ← kholawCkdPub nd idx
+    if nd.depth ≥ 255 then throw .value
     nodeOfPub nd.curve nd.scheme p (nd.depth + 1) idx cc nd.fingerprint
 
 /-- `ChildKey` dispatch on the object's scheme -/
